@@ -2,6 +2,7 @@ import CJ.Drv.Loop
 import CJ.Drv.Detector
 import CJ.Drv.Announce
 import CJ.Drv.PacketPath
+import CJ.Drv.C10Transport
 /-! Driver for C10: the station → detector channel model (`c10|`: messages, sweeps and lookups on one
 detector) the registry ∥ detector history model (`c10h|`) and the station scenarios around it
 (`c10s|`: ingest pipeline, shutdown sequence, availability of the channel) and the detector's packet
@@ -13,4 +14,5 @@ def main : IO Unit := runDriver fun
   | "c10h" :: args => Announce.handle args
   | "c10s" :: args => Announce.handleStation args
   | "c10p" :: args => PacketPath.handle args
+  | "c10t" :: args => C10Transport.handle args
   | _ => none
